@@ -6,6 +6,7 @@ PRELUDE = """// GENERATED on every run from /repo's current working tree by /ver
 #![allow(unused)]
 #![allow(unreachable_code, unused_mut, unused_variables, unused_assignments, dead_code, non_snake_case, unused_parens, unused_braces)]
 use vstd::prelude::*;
+use vstd::std_specs::iter::IteratorSpec;
 // R1: logging macros evaluate nothing
 macro_rules! debug { ($($t:tt)*) => {} }
 macro_rules! info { ($($t:tt)*) => {} }
@@ -20,9 +21,19 @@ proof fn __canary() { assert(false); //@ C00:canary
 """
 
 
-def r2(cut):
-    """R2: drop Debug from derives; make items and fields pub."""
-    cut.sub(r"#\[derive\(([^)]*)\)\]", lambda m: "#[derive(%s)]" % ", ".join(x for x in [y.strip() for y in m.group(1).split(",")] if x and x != "Debug"), "R2-derive")
+def _derive(m, structural):
+    items = [y.strip() for y in m.group(1).split(",")]
+    items = [x for x in items if x and x != "Debug"]
+    if structural and "PartialEq" in items and "Eq" not in items:
+        items += ["Eq", "Structural"]
+    return "#[derive(%s)]" % ", ".join(items)
+
+
+def r2(cut, structural=False):
+    """R2: drop Debug from derives; make items and fields pub.  structural=True (plain-data enums
+    only): a derived PartialEq is declared to be structural equality (`Eq, Structural` added) --
+    that is what #[derive(PartialEq)] generates for such types."""
+    cut.sub(r"#\[derive\(([^)]*)\)\]", lambda m: _derive(m, structural), "R2-derive" + ("+structural" if structural else ""))
     cut.sub(r"#\[derive\(\)\]\n?", "", "R2-derive-empty")
     cut.sub(r"^(\s*)(enum|struct)\b", r"\1pub \2", "R2-pub")
     return cut
@@ -40,7 +51,7 @@ def asm_types(repo, with_code=True):
     cuts = []
     for kind, name in (("enum", "AsmMnemonic"), ("struct", "AsmInstruction"), ("enum", "AsmLine"), ("struct", "AssemblyCode")):
         c = f.item(kind, name)
-        r2(c)
+        r2(c, structural=(name == "AsmMnemonic"))
         if kind == "struct":
             r2_fields(c)
         cuts.append(c)
@@ -92,3 +103,115 @@ def collect_rewrites(cuts):
         for l in c.diff_summary():
             res.append("%s:%d %s: %s" % (c.rel, c.line0, c.desc, l[:160]))
     return res
+
+
+# ---- R4: format!(LIT, args…) -> generated external_body function with a derived spec -------
+DEC_SPECS = """
+// ---- spec: decimal rendering of integers (what `{}` prints; assumption A-fmt) ---------------
+pub open spec fn digit(d: int) -> char { ((48 + d) as u8) as char }
+pub open spec fn dec_nat(n: nat) -> Seq<char> decreases n {
+    if n < 10 { seq![digit(n as int)] } else { dec_nat(n / 10).push(digit((n % 10) as int)) }
+}
+pub open spec fn dec(i: int) -> Seq<char> { if i < 0 { seq!['-'] + dec_nat((-i) as nat) } else { dec_nat(i as nat) } }
+pub open spec fn is_digit(c: char) -> bool { '0' <= c <= '9' }
+pub proof fn dec_nat_digits(n: nat)
+    ensures dec_nat(n).len() >= 1, forall|k: int| 0 <= k < dec_nat(n).len() ==> is_digit(#[trigger] dec_nat(n)[k])
+    decreases n
+{ if n >= 10 { dec_nat_digits(n / 10); } }
+"""
+
+
+def _split_args(s):
+    parts, depth, cur = [], 0, ""
+    i = 0
+    instr = False
+    while i < len(s):
+        ch = s[i]
+        if instr:
+            cur += ch
+            if ch == "\\":
+                cur += s[i + 1]; i += 1
+            elif ch == '"':
+                instr = False
+        elif ch == '"':
+            instr = True; cur += ch
+        elif ch in "([{":
+            depth += 1; cur += ch
+        elif ch in ")]}":
+            depth -= 1; cur += ch
+        elif ch == "," and depth == 0:
+            parts.append(cur.strip()); cur = ""
+        else:
+            cur += ch
+        i += 1
+    if cur.strip():
+        parts.append(cur.strip())
+    return parts
+
+
+class Fmt:
+    """Collects the format! call sites of a unit and emits one external_body fn per site shape."""
+
+    def __init__(self, kinds):
+        # kinds: {arg text: ("str"|"int", call expression or None)}
+        self.kinds = kinds
+        self.fns = {}
+
+    def apply(self, cut, expect=None):
+        from vf.rustcut import mask, match_brace
+        n = 0
+        while True:
+            m = mask(cut.text)
+            k = re.search(r"\bformat!\(", m)
+            if not k:
+                break
+            op = k.end() - 1
+            cp = match_brace(m, op, "(", ")")
+            inner = cut.text[op + 1:cp]
+            args = _split_args(inner)
+            lit = args[0]
+            if not (lit.startswith('"') and lit.endswith('"')):
+                raise Undecided("%s: format! with non-literal format string: %s" % (cut.desc, inner[:60]))
+            lit = lit[1:-1]
+            if re.search(r"\{[^}]+\}", lit):
+                raise Undecided("%s: format! with a non-`{}` placeholder (outside R4): %r" % (cut.desc, lit))
+            pieces = lit.split("{}")
+            if len(pieces) - 1 != len(args) - 1:
+                raise Undecided("%s: format! placeholder/argument mismatch: %s" % (cut.desc, inner[:80]))
+            kinds = []
+            calls = []
+            for a in args[1:]:
+                key = re.sub(r"\s+", " ", a)
+                if key not in self.kinds:
+                    raise Undecided("%s: format! argument %r has no declared kind (R4 table)" % (cut.desc, key))
+                kd, call = self.kinds[key]
+                kinds.append(kd)
+                calls.append(call or (a if kd == "int" else "&" + a))
+            name = "fmt_" + re.sub(r"\W", "", "_".join(re.sub(r"[^\w]", lambda x: "x%02x" % ord(x.group(0)), p) for p in pieces))[:50] + "_" + "".join(k[0] for k in kinds)
+            if name not in self.fns:
+                params, spec = [], []
+                for i, p in enumerate(pieces):
+                    if p:
+                        spec.append('"%s"@' % p)
+                    if i < len(kinds):
+                        if kinds[i] == "str":
+                            params.append("a%d: &String" % i)
+                            spec.append("a%d@" % i)
+                        else:
+                            params.append("a%d: i128" % i)
+                            spec.append("dec(a%d as int)" % i)
+                body = 'format!("%s"%s)' % (lit, "".join(", a%d" % i for i in range(len(kinds))))
+                self.fns[name] = "#[verifier::external_body]\npub fn %s(%s) -> (r: String)\n    ensures r@ == %s, // A-fmt (R4: derived mechanically from the literal %r)\n{ %s }\n" % (
+                    name, ", ".join(params), " + ".join(spec) if spec else "Seq::<char>::empty()", lit, body)
+            callargs = []
+            for kd, c in zip(kinds, calls):
+                callargs.append(("(%s) as i128" % c) if kd == "int" else c)
+            cut.text = cut.text[:k.start()] + "%s(%s)" % (name, ", ".join(callargs)) + cut.text[cp + 1:]
+            cut.log.append("R4 format!(%r, …) -> %s" % (lit, name))
+            n += 1
+        if expect is not None and not (expect[0] <= n <= expect[1]):
+            raise Undecided("%s: %d format! sites, expected %s" % (cut.desc, n, expect))
+        return n
+
+    def text(self):
+        return "\n".join(self.fns[k] for k in sorted(self.fns))
